@@ -55,10 +55,13 @@ ChooseList == /\ phase = "start" /\ kind' = "list" /\ exprs' \in Lists /\ style'
 (* text literals that spell the internal name of a column or of an expression selected next to them (the key of the per-row value   *)
 (* cache): each column shows its own value - the literal its text, the expression its number - in either order                      *)
 KeyTexts == << <<"S","i","z","e">>, <<"(","S","i","z","e"," ","+"," ","1",")">>, <<"L","e","n","g","t","h","(","N","a","m","e",")">>, <<"H","a","r","d","l","i","n","k","s">> >>
+(* function calls whose text arguments render to the same text when written without quotes: `concat('a, b')` and `concat('a', 'b')` *)
+ChooseArgText == /\ phase = "start" /\ kind' = "argtext" /\ exprs' = <<>> /\ lits' = << <<"a",","," ","b">>, <<"a","b">>, <<"a",","," ","b">> >>
+                 /\ style' = "min" /\ wop' = "" /\ wlit' = 0 /\ phase' = "done"
 ChooseKeyText == /\ phase = "start" /\ kind' \in {"keytext-after", "keytext-before"}
                  /\ exprs' = << <<"size">>, <<"+", "size", "1">>, <<"length(name)">>, <<"hardlinks">> >> /\ lits' = KeyTexts
                  /\ style' = "min" /\ wop' = "" /\ wlit' = 0 /\ phase' = "done"
-Next == ((ChooseOne \/ ChoosePairOp \/ ChoosePairBr \/ ChooseWhere \/ ChooseList) /\ lits' = <<>>) \/ ChooseKeyText
+Next == ((ChooseOne \/ ChoosePairOp \/ ChoosePairBr \/ ChooseWhere \/ ChooseList) /\ lits' = <<>>) \/ ChooseKeyText \/ ChooseArgText
 Spec == Init /\ [][Next]_vars
 
 RECURSIVE ColsText(_)
@@ -74,6 +77,7 @@ Class == kind \o (IF BareLiteral THEN "/bare-literal" ELSE "") \o (IF NegOnColum
          \o (IF HasTok("neg") /\ ~NegOnColumn /\ ~NegOnBracket THEN "/minus-number" ELSE "") \o "/" \o style
 Query == IF kind = "where"
          THEN "select path from '.' where " \o ArithText(exprs[1], style) \o " " \o OpText(wop) \o " " \o ToString(wlit) \o " into list"
+         ELSE IF kind = "argtext" THEN "select path, concat('a, b'), concat('a', 'b'), concat('a, b') from '.' into list"
          ELSE IF kind = "keytext-before" THEN "select path" \o LitsText(1) \o ColsText(1) \o " from '.' into list"
          ELSE "select path" \o ColsText(1) \o LitsText(1) \o " from '.' into list"
 Scenario == [prop |-> "C15", world |-> "W15", class |-> Class, kind |-> kind, exprs |-> exprs, wop |-> wop, wlit |-> wlit, lits |-> lits,
